@@ -306,6 +306,10 @@ func insertArrayValue(target []r.Element, idx int, insertItem r.Element) []r.Ele
 	if idx < 0 {
 		idx = len(target) + idx
 	}
+	// a position before the first item (or an undefined one, e.g. NaN) means the first item
+	if idx < 0 {
+		idx = 0
+	}
 	result = append(result, target[:idx]...)
 	result = append(result, insertItem)
 	result = append(result, target[idx:]...)
